@@ -1,7 +1,7 @@
 """C12 — commands.mkprof: profiles contain exactly the selected source rows."""
 import re
 
-from harness.coqlit import cstr, cZ, copt, clist, app, cbool
+from harness.coqlit import cstr, cZ, copt, clist, app, cbool, cN
 from harness.props import c09, c11
 
 ID = "C12"
@@ -23,11 +23,15 @@ EXPLANATION = ("Theorems: one item per sentence line with ids from 1, mark and l
                "identity in general (F15). The copy/filter pipeline is modelled on top of "
                "the C09 and C11 models and tied by correspondence on real directories.")
 ASSUMPTIONS = list(c09.ASSUMPTIONS) + list(c11.ASSUMPTIONS) + [
-    "delimited text input (header line + delimiter) is checked by the oracle only",
+    "delimited text input: one-character delimiters; the model follows _make_split/_lines_to_records (tsdb.split for "
+    "the delimiter @, str.split otherwise; the last of two equally named columns wins); an empty input with a "
+    "delimiter makes the implementation raise StopIteration (no header line), which the model records as an error",
 ]
 TRUSTED = []
 LEVEL_TEXT = ("Proof (Coq, no axioms): a profile made from sentence lines has one record per line, identifiers "
-              "1..n, well-formedness mark 0 exactly for '*'-lines (mark stripped), length = number of words; cleanup "
+              "1..n, well-formedness mark 0 exactly for '*'-lines (mark stripped), length = number of words; from delimited "
+              "lines with a header: one item per data line built from that line and its position, given columns verbatim, a "
+              "missing identifier the line number, a missing length the number of words, given identifiers pairwise different; cleanup "
               "leaves exactly the non-empty core relations (skeleton) or all relations of the target schema and "
               "removes stale ones; refreshing in place satisfies the C09 database theorem; the duplicate filter never "
               "invents rows. mkprof_from_database (copy, TSQL filter with fallback, re-make under another schema, "
@@ -117,6 +121,30 @@ def gen(rng, tier):
         # without a final newline an empty last line is not a line of the file at all
         nl = rng.random() < 0.8 or bool(lines and lines[-1] == "")
         cases.append({"k": "lines", "fields": fields, "lines": lines, "nl": nl})
+    # delimited text: a header line names the columns (choices from a generator of their own)
+    import random
+    lrng = random.Random("c12-delim-" + tier)
+    allf = [["i-id", ":integer"], ["i-input", ":string"], ["i-wf", ":integer"], ["i-length", ":integer"],
+            ["i-comment", ":string"]]
+    vals = {"i-id": ["10", "20", "30", "7", "", "10"], "i-input": ["It rained.", "a b  c", "", "x\\sy", "one", "q\\"],
+            "i-wf": ["1", "0", ""], "i-length": ["3", "", "12"], "i-comment": ["c", "", "a b", "bogus"],
+            "bogus": ["zz", ""]}
+    for _ in range(n // 2):
+        delim = lrng.choice(["\t", "@", ",", ";", "@"])
+        fields = list(allf) if lrng.random() < 0.7 else lrng.sample(allf, lrng.randrange(1, 5))
+        cols = lrng.sample(["i-id", "i-input", "i-wf", "i-length", "i-comment", "bogus"], lrng.randrange(1, 5))
+        if lrng.random() < 0.1:
+            cols.append(lrng.choice(cols))            # a column named twice: the last one wins
+        lines = []
+        for _ in range(lrng.randrange(0, 5)):
+            row = [lrng.choice(vals[c]) for c in cols]
+            if lrng.random() < 0.08:
+                row = row[:-1] if lrng.random() < 0.5 else row + ["extra"]
+            lines.append(delim.join(row))
+        text = [delim.join(cols)] + lines
+        if lrng.random() < 0.04:
+            text = []
+        cases.append({"k": "dlines", "delim": delim, "fields": fields, "lines": text})
     return cases
 
 
@@ -161,6 +189,20 @@ def observe(c):
     from delphin import commands, tsdb, tsql
     top = tempfile.mkdtemp(prefix="verif_c12_")
     try:
+        if c["k"] == "dlines":
+            sch = os.path.join(top, "relations")
+            with open(sch, "w") as f:
+                f.write("item:\n" + "\n".join("  %s %s" % (n, dt) for n, dt in c["fields"]) + "\n")
+            srcf = os.path.join(top, "cols.txt")
+            with open(srcf, "w", encoding="utf-8", newline="\n") as f:
+                f.write("".join(l + "\n" for l in c["lines"]))
+            dst = os.path.join(top, "dst")
+            try:
+                commands.mkprof(dst, source=srcf, schema=sch, delimiter=c["delim"], quiet=True)
+            except Exception as e:
+                return {"err": type(e).__name__}
+            with open(os.path.join(dst, "item"), encoding="utf-8", newline="\n") as f:
+                return {"lines": f.read().split("\n")[:-1]}
         if c["k"] == "lines":
             sch = os.path.join(top, "relations")
             with open(sch, "w") as f:
@@ -213,9 +255,57 @@ def observe(c):
         shutil.rmtree(top, ignore_errors=True)
 
 
+def _dlines_oracle(c, o):
+    """well-formed delimited input (a header of distinct columns, every line with that many values,
+    distinct given identifiers, well-formed escapes): one item per data line, given columns verbatim,
+    a missing identifier the line number, a missing length the number of words"""
+    from delphin import tsdb
+    if not c["lines"]:
+        return None
+    d = c["delim"]
+
+    def split(line):
+        if d == "@":
+            return list(tsdb.split(line))
+        return line.split(d)
+    try:
+        cols = split(c["lines"][0])
+        rows = [split(l) for l in c["lines"][1:]]
+    except tsdb.TSDBError:
+        return None
+    names = [n for n, _ in c["fields"]]
+    ok = len(set(cols)) == len(cols) and all(len(r) == len(cols) for r in rows)
+    if ok and "i-id" in cols and "i-id" in names:
+        ids = [r[cols.index("i-id")] for r in rows]
+        ok = len(set(ids)) == len(ids)
+    if not ok:
+        return None
+    if "err" in o:
+        return "mkprof from well-formed delimited lines raised %s" % o["err"]
+    if len(o["lines"]) != len(rows):
+        return "%d items for %d delimited lines" % (len(o["lines"]), len(rows))
+    for i, (r, rec) in enumerate(zip(rows, o["lines"]), 1):
+        got = dict(zip(names, tsdb.split(rec)))
+        given = dict(zip(cols, r))
+        for n in names:
+            if n in given:
+                want = given[n] if given[n] != "" else (None if d != "@" else None)
+                if d == "@" and given[n] is None:
+                    continue                      # an empty column reads as None: the default is written
+                if got[n] != (want if want != "" else None):
+                    return "line %d: column %s is %r, the text gives %r" % (i, n, got[n], given[n])
+            elif n == "i-id" and got[n] != str(i):
+                return "line %d: i-id is %r, expected the line number %d" % (i, got[n], i)
+            elif n == "i-length" and "i-input" in given and got[n] != str(len((given["i-input"] or "").split())):
+                return "line %d: i-length is %r for the input %r" % (i, got[n], given["i-input"])
+    return None
+
+
 def oracle(c):
     """direct statement of the property on the implementation"""
     o = observe(c)
+    if c["k"] == "dlines":
+        return _dlines_oracle(c, o)
     if c["k"] == "lines":
         if "err" in o:
             return "mkprof from sentence lines raised %s" % o["err"]
@@ -403,6 +493,12 @@ def _oracle_table(c):
 def coq_case(c, o):
     if "exc" in o:
         raise ValueError("harness")
+    if c["k"] == "dlines":
+        if any(ord(ch) > 127 for l in c["lines"] for ch in l):
+            return None
+        fs = clist(c["fields"], lambda f: "{| f_name := %s; f_type := %s |}" % (cstr(f[0]), DT[f[1]]))
+        return app("CDelim", cN(ord(c["delim"])), fs, clist(c["lines"], cstr),
+                   "None" if "err" in o else "(Some %s)" % clist(o["lines"], cstr))
     if c["k"] == "lines":
         fs = clist(c["fields"], lambda f: "{| f_name := %s; f_type := %s |}" % (cstr(f[0]), DT[f[1]]))
         return app("CLines", fs, clist(c["lines"], cstr),
